@@ -456,6 +456,27 @@ func c13GoroutineStates(buf []byte) map[uint64]string {
 	return out
 }
 
+// c13GoroutineBlock returns the traceback block of one goroutine.
+func c13GoroutineBlock(buf []byte, gid uint64) string {
+	n := runtime.Stack(buf, true)
+	all := string(buf[:n])
+	hdr := "goroutine " + strconv.FormatUint(gid, 10) + " ["
+	i := strings.Index(all, "\n"+hdr)
+	if strings.HasPrefix(all, hdr) {
+		i = 0
+	} else if i >= 0 {
+		i++
+	}
+	if i < 0 {
+		return ""
+	}
+	rest := all[i:]
+	if j := strings.Index(rest, "\n\n"); j >= 0 {
+		rest = rest[:j]
+	}
+	return rest
+}
+
 func (w *c13EpWorld) parkedDial(key int) *c13EpDial {
 	for _, d := range w.dials {
 		if d.parked && d.call.key == key {
@@ -915,7 +936,7 @@ func c13EndpointCase(rt *rapid.T) {
 		if len(flapDials) > 0 {
 			acts = append(acts, "release_flap", "release_flap")
 		}
-		if blocked == 0 && w.shared && !w.gens[0].closed {
+		if blocked == 0 && w.shared && !w.gens[0].closed && step >= nSteps/3 {
 			old := false
 			for _, c := range w.calls {
 				if !c.isDone() && c.gen == 0 {
@@ -929,7 +950,7 @@ func c13EndpointCase(rt *rapid.T) {
 		if blocked == 0 {
 			acts = append(acts, "sleep", "sleep")
 			if len(w.eps) > 0 {
-				acts = append(acts, "read", "read", "read", "write", "write", "write", "track", "track", "track", "invalidate", "transport")
+				acts = append(acts, "read", "read", "read", "write", "write", "write", "track", "track", "track", "track", "track", "invalidate", "transport")
 				if allowRemove {
 					acts = append(acts, "remove")
 				}
@@ -978,8 +999,13 @@ func c13EndpointCase(rt *rapid.T) {
 			sh.mu.RLock()
 			w.releaseDial(d)
 			reached := false
-			for spin := 0; spin < 5000000 && !d.call.isDone(); spin++ {
-				if strings.HasPrefix(c13GoroutineStates(c13StackBuf)[d.call.gid.Load()], "sync.RWMutex.Lock") {
+			for spin := 0; spin < 2000000 && !d.call.isDone(); spin++ {
+				// waiting for the shard's write lock inside createEndpointLocked (behind
+				// another pending writer the wait reason is that of the inner mutex,
+				// so the frames decide, not the wait reason)
+				blk := c13GoroutineBlock(c13StackBuf, d.call.gid.Load())
+				if strings.Contains(blk, "sync.(*RWMutex).Lock") && strings.Contains(blk, "createEndpointLocked") &&
+					(strings.Contains(blk, "[sync.RWMutex.Lock") || strings.Contains(blk, "[sync.Mutex.Lock")) {
 					reached = true
 					break
 				}
@@ -1010,6 +1036,9 @@ func c13EndpointCase(rt *rapid.T) {
 			for _, ep := range w.eps {
 				if ep.owner == 0 && !ep.closed() {
 					outlive++
+					if len(ep.tuples) > 0 {
+						w.classes["old_endpoints_with_tuples_outlive_core_close"] = true
+					}
 					for k := range ep.tuples {
 						for _, o := range w.eps {
 							if o.owner == 1 && !o.closed() && o.tuples[k] {
@@ -1136,7 +1165,7 @@ func c13EndpointCase(rt *rapid.T) {
 				rt.Fatalf("WriteTo on dead endpoint #%d succeeded\nhistory: %s", ep.serial, w.tail())
 			}
 		case "track":
-			ep := pickEp("ep", false)
+			ep := pickEp("ep", rapid.IntRange(0, 4).Draw(rt, "trackAny") > 0)
 			if ep == nil {
 				continue
 			}
